@@ -154,8 +154,11 @@ Scenarios ==
          {MixByDest(t, g) : t \in TputTypes, g \in {1, 2, 10}}
          \cup {MixByRule(t, g) : t \in TputTypes, g \in {1, 2, 10}}
          \cup {MixCollide(t, g) : t \in TputTypes, g \in {1, 2, 10}}
-    [] Family = "collect" ->
-         {PairScenario(Base("tt"), 1), MixCollide("et", 10), MixByDest("wt", 2)}
+    [] Family = "collect-quick" ->
+         {PairScenario(Base("tt"), 1), MixCollide("et", 10)}
+    [] Family = "collect-full" ->
+         {PairScenario(Base("tt"), 1), PairScenario(Base("dy"), 4), MixCollide("et", 10), MixByDest("wt", 2),
+          AliasScenario("ed")}
 
 DSeq == <<"e1", "e2">>
 ND == Len(DSeq)
